@@ -508,19 +508,48 @@ func (p *sqlParser) atom(st *SQLStmt) (*SQLExpr, error) {
 			e.Cmp = "IS NULL"
 		}
 		return e, nil
-	case p.isKw("IN"):
-		p.next()
+	case p.isKw("IN"), p.isKw("NOT"):
 		e.Cmp = "IN"
+		if p.isKw("NOT") {
+			p.next()
+			if !p.isKw("IN") {
+				return nil, fmt.Errorf("expected IN after NOT")
+			}
+			e.Cmp = "NOT IN"
+		}
+		p.next()
 		if t := p.next(); t == nil || t.Kind != "(" {
 			return nil, fmt.Errorf("expected ( after IN")
 		}
+		if p.isKw("SELECT") {
+			sub, err := p.selectStmt()
+			if err != nil {
+				return nil, err
+			}
+			if t := p.next(); t == nil || t.Kind != ")" {
+				return nil, fmt.Errorf("expected ) after the sub-select")
+			}
+			st.Subs = append(st.Subs, sub)
+			e.Sub = sub
+			e.Right = "(SELECT)"
+			return e, nil
+		}
 		v := p.next()
 		if v == nil || v.Kind != "?" {
-			return nil, fmt.Errorf("only IN (?) is supported")
+			return nil, fmt.Errorf("only IN (?) and IN (SELECT ...) are supported")
 		}
 		e.Right, e.QIdx = "?", v.QIdx
-		if t := p.next(); t == nil || t.Kind != ")" {
-			return nil, fmt.Errorf("expected ) after IN (?")
+		for {
+			t := p.next()
+			if t == nil {
+				return nil, fmt.Errorf("expected ) after IN (?")
+			}
+			if t.Kind == ")" {
+				break
+			}
+			if t.Kind != "," && t.Kind != "?" {
+				return nil, fmt.Errorf("unexpected %q in IN list", t.Text)
+			}
 		}
 		return e, nil
 	}
